@@ -37,6 +37,10 @@ CHECKS = {
    text="Pager.tla models keyset pagination (matching rows with id > token, ascending, LIMIT n+1, drop the extra row) with writers inserting rows at arbitrary storage positions and deleting rows between fetches; TLC checks exhaustively that pages are bounded, ascending, duplicate-free, that rows present for the whole iteration come back exactly once, that the concatenation is exact without writers and that the token is empty iff no further row existed. TLC-generated behaviours are replayed page by page on the real persister over REST, gRPC and the Manager (8 query shapes, storage positions imposed through shard_id) and every page and token must equal the model's; size tables around the 1/n/100/101/201 boundaries and malformed tokens are checked too.",
    note="Exhaustive: 5-6 row ids, page sizes 1..3, 2-3 writer steps. sqlite only; positions are imposed by rewriting shard_id.",
    technique="TLA+ model checking (TLC) + TLC-generated behaviours replayed page by page", ref="4/C07"),
+ "C05": dict(
+   text="StoreImpl.tla models a multi-relationship write as the code does it (BEGIN, optional name-mapping insert, chunked INSERTs, chunked DELETEs, COMMIT) with a fault before any statement, a crash before any statement and a reader between any two statements; TLC checks exhaustively that the committed state is always the state before or the full effect, equals the state before after an error or crash, and that readers only ever see those two states. On the real code a wrapping database/sql driver logs every statement, fails the k-th statement for every k of the fault-free log, and kills a child process before the k-th statement on a file database; request shapes span the real chunk sizes (3000/100) with invalid elements at chosen positions over Manager, REST PATCH and gRPC Transact; the store must equal the state before. Every recorded statement log is validated by TLC against TraceTx.tla (one transaction per request, chunk sizes, inserts before deletes, nothing after a failure but ROLLBACK). Readers list while a writer toggles two states.",
+   note="sqlite only (in-memory for faults, file-backed for crash points); lock errors of concurrent readers are not observations; StoreImpl.tla uses chunk sizes 2/1 and <= 3 inserts, <= 3 deletes.",
+   technique="TLA+ model checking (TLC) + statement-level fault and crash-point enumeration + TLC trace validation of SQL statement logs", ref="4/C05"),
 }
 NOT_YET = "check not built yet in this session (work in progress, see DESIGN.md section 12)"
 
